@@ -271,9 +271,16 @@ def evaluate_run(m):
 def run_e2e(ctx, nruns, max_layers):
     rng = random.Random(ctx.seed * 104729 + 1)
     events, evmeta = [], []
+    skipped = 0
     for it in range(nruns):
         nl = rng.choice([2, 3, 4, 5, 7, 10, 13, 20, max_layers]) if it % 3 else rng.randint(2, max_layers)
         m, spec = build_random_model(rng, nl)
+        zb = np.asarray(m.altitude_boundaries, dtype=float)
+        if not np.all(np.isfinite(zb)) or zb.max() > 3.0 * m.planet.fullRadius:
+            # hot, low-gravity planet over many pressure decades: the hydrostatic altitude runs away
+            # (unbound atmosphere, z -> inf).  The documented integral is not defined there: skipped.
+            skipped += 1
+            continue
         e2e_one(ctx, m, spec, events, evmeta, rng)
     if events:
         accepted, bad, res = validate_trace('Trace_Transmission', 'Trace_Transmission.cfg', events)
@@ -289,6 +296,7 @@ def run_e2e(ctx, nruns, max_layers):
         ctx.add_sample(dict(early_exit_event=events[len(events) // 2]))
         nexit = sum(1 for e in events if e['appl'] and max(e['appl']) < len(e['m']) - 1)
         ntransp = sum(1 for e in events if e['m'][-1] == 0)
+        ctx.note('%d random atmospheres skipped (unbound: altitude not finite or > 3 planet radii)' % skipped)
         ctx.note('whole-model runs: %d layer events, %d with the early exit taken, %d fully transparent' % (len(events), nexit, ntransp))
         if nexit == 0 and not ctx.has_violations():
             raise Machinery('vacuous: no whole-model run exercised the early exit')
